@@ -73,6 +73,19 @@ REG["C05"] = {
     "callsites": [("src/bin/commands/test.rs", "if output.exit_code == ExitStatus::Detached { count_detached += 1; continue; }")],
 }
 
+REG["C14"] = {
+    "units": [], "kani_units": ["c14_timeout"],
+    "scope": "PARTIAL: only 'whichever limit is reached first' — the ordering used by StatefulExecutor::execute_all to pick the effective timeout "
+             "(derived Ord of the private struct Timeout, extracted with its derive list; `.min()` over Option<Timeout>) selects the smaller duration; "
+             "loop-free Kani harness over the full domain of both limits (bool x u64 secs x u32 nanos each)",
+    "assumptions": ["the selection expression itself (vec![..].into_iter().filter(is_some).min()) is inside execute_all, out of reach: the harness applies "
+                    "Option::min to the extracted struct, which is what Iterator::min folds with; anchor checked textually",
+                    "Kani/CBMC; rustc's expansion of #[derive(PartialOrd, Ord)] is what is proved (the struct text incl. attributes is copied verbatim)"],
+    "not_decided": ["that the process is really aborted after that long (subprocess + kernel)", "skipped-vs-passed accounting after a timeout (bin/commands/test.rs)",
+                    "BashScriptExecutor's single total timeout", "remaining-time computation timeout_left() (Instant arithmetic)"],
+    "callsites": [("src/executors/stateful_executor.rs", ".into_iter().filter(|item| item.is_some()).min()")],
+}
+
 VX_NOTE = ("Trusted: Verus/Z3; the extractor's rewrite rules (DESIGN §4.2, each firing is logged in evidence.rewrites_fired); "
            "prelude.rs shims and assume_specifications (mechanically scanned into evidence.trusted_base); "
            "machine integers are NOT idealised (usize overflow is an obligation).")
@@ -98,6 +111,10 @@ LEVELS["C05"] = {"category": "proof", "technique": "Verus postconditions on extr
     "text": "Unbounded proof for all test cases, outputs and output_stream settings of the verdict function: Ok iff exit code equals the expected one "
             "and the selected stream is accepted; wrong code reported regardless of output; no exit code => never Ok.",
     "design_ref": "DESIGN.md §5 C05", "note": VX_NOTE}
+LEVELS["C14"] = {"category": "proof", "technique": "Kani proof harness (loop-free, full domain) on the extracted struct Timeout's derived Ord",
+    "text": "Complete proof (no unwinding bound: the code is loop-free) over all pairs of limits that the ordering used to select the effective timeout "
+            "orders by duration first. Partial scope: abort/accounting behaviour is out of reach and stated as not decided.",
+    "design_ref": "DESIGN.md §5 C14", "note": "Trusted: Kani 0.68/CBMC 6.11; extraction copies the struct with its attributes verbatim; see evidence.assumptions"}
 
 NOT_APPLICABLE = [
     {"property_id": "C04", "reason": "being built (rule matchers under contract) — not yet claimed"},
@@ -109,7 +126,6 @@ NOT_APPLICABLE = [
     {"property_id": "C11", "reason": "being built (escaping round trip) — not yet claimed"},
     {"property_id": "C12", "reason": "a property of bash executing bash_runner.template; no Rust function's postcondition can state it (DESIGN §10)"},
     {"property_id": "C13", "reason": "being built (CRLF kernel, partial) — not yet claimed"},
-    {"property_id": "C14", "reason": "being built (limit selection order, partial) — not yet claimed"},
     {"property_id": "C15", "reason": "decision is interleaved with process spawning/TempDir/Instant inside execute_all; a modular contract would need almost the whole body behind external_body stubs (DESIGN §10)"},
     {"property_id": "C17", "reason": "reader is serde_yaml (external), writer is format!; an inverse law needs the parser's semantics (DESIGN §10)"},
     {"property_id": "C18", "reason": "filesystem effects and Drop of tempfile::TempDir across process exits; outside any function contract (DESIGN §10)"},
